@@ -226,6 +226,12 @@ class Mon(object):
         if pastify:
             self.pastify()
         self._hist = hist
+        # a few online objects get, between their updates, calls that are rejected before any sample is consumed
+        # (the data argument is None): a call that fed nothing is not an update
+        self._rejected_calls = None
+        if HISTORY is not None and HISTORY.random() < 0.08:
+            import random
+            self._rejected_calls = random.Random(HISTORY.randrange(1 << 30))
         self._struct = None            # None: undecided; False: no; dict: mapping float variable -> field
         self._typed = None
         if sd.get('typed'):
@@ -581,6 +587,19 @@ class Mon(object):
             if h.random() < 0.3:
                 self._neighbour(h, method, args)
             self._prehistory(h, method, args)
+        if method == 'update' and self._rejected_calls is not None and self._rejected_calls.random() < 0.4:
+            try:
+                if len(args) == 2 and isinstance(args[0], (int, float)):
+                    self.spec.update(args[0], None)
+                else:
+                    self.spec.update(None)
+                REC.counts['history-raised:rejected-call-accepted'] += 1
+                self._rejected_calls = None
+            except Exception:
+                REC.counts['history:rejected-update-between-updates'] += 1
+                if not any('rejected before it consumed' in x for x in LAST_HISTORY):
+                    LAST_HISTORY.append('object #%d: update() calls without data (None) were made between its updates and '
+                                        'rejected before they consumed a sample' % self.oid)
         seq = REC.call(self.oid, method, args)
         try:
             r = getattr(self.spec, method)(*args)
